@@ -500,22 +500,42 @@ class ValueMapping:
         # match found
         lo = m.group(1)
         if lo == '':
-            if i == 0:
+            # The neighbour that bounds an open end is the nearest entry
+            # that is not the unclaimed marker '..'
+            j = i - 1
+            while j >= 0 and valuemap_list[j] == '..':
+                j -= 1
+            if j < 0:
                 lo = cimtype.minvalue
+            elif valuemap_list[j].endswith('..'):
+                raise ModelError(
+                    _format("The value-mapped {0} has adjacent ValueMap "
+                            "entries with open ends facing each other: "
+                            "{1!A}, {2!A}", self._element_str(),
+                            valuemap_list[j], valuemap_str))
             else:
                 _, previous_hi, _ = self._values_tuple(
-                    i - 1, valuemap_list, values_list, cimtype)
+                    j, valuemap_list, values_list, cimtype)
                 lo = previous_hi + 1
         else:
             lo = self._to_int(lo)
 
         hi = m.group(2)
         if hi == '':
-            if i == len(valuemap_list) - 1:
+            j = i + 1
+            while j < len(valuemap_list) and valuemap_list[j] == '..':
+                j += 1
+            if j >= len(valuemap_list):
                 hi = cimtype.maxvalue
+            elif valuemap_list[j].startswith('..'):
+                raise ModelError(
+                    _format("The value-mapped {0} has adjacent ValueMap "
+                            "entries with open ends facing each other: "
+                            "{1!A}, {2!A}", self._element_str(),
+                            valuemap_str, valuemap_list[j]))
             else:
                 next_lo, _, _ = self._values_tuple(
-                    i + 1, valuemap_list, values_list, cimtype)
+                    j, valuemap_list, values_list, cimtype)
                 hi = next_lo - 1
         else:
             hi = self._to_int(hi)
